@@ -1626,6 +1626,8 @@ func (b *Bitmap) unmarshalPilosaRoaring(data []byte) error {
 		case containerBitmap:
 			c.setBitmap((*[0xFFFFFFF]uint64)(unsafe.Pointer(&data[offset]))[:bitmapN:bitmapN])
 			opsOffset = int(offset) + len(c.bitmap())*8 // sizeof(uint64)
+		default:
+			return fmt.Errorf("unknown container type %d", c.typ())
 		}
 	}
 
